@@ -271,6 +271,20 @@ fn check_state(
                         }
                     }
                 }
+            } else {
+                // no sample mask (stop step) or an error: the whole caller buffer is zero-filled, with the
+                // EOS bit alone at a stop; the buffer was handed over full of a non-zero pattern
+                ctx.count("par_compute_mask_calls_without_sample_mask", 1);
+                let stop = matches!(&exp, Ok((None, true)));
+                for i in 0..n {
+                    let mut e = 0u32;
+                    if stop && (env.ctok.eos as usize) / 32 == i {
+                        e |= 1 << (env.ctok.eos % 32);
+                    }
+                    if dest[i] != e {
+                        return Err(v("par_dest_not_cleared", "ffi-buffer", json!({"dest_bytes": len, "word": i, "got": format!("{:#x}", dest[i]), "expected": format!("{:#x}", e), "rust_result": format!("{:?}", exp.as_ref().map(|x| x.1).map_err(|e| e.to_string()))})));
+                    }
+                }
             }
             len += 4;
         }
